@@ -141,7 +141,7 @@ func vfGe(a, b float64) bool {
 func vfJudge(o vfObs, d float64, err error, ref float64, defined bool, gamma bool, alpha float64) {
 	verifAssert(err == nil, "no error")
 	comparable := o.tot > 0
-	verifAssert(!(comparable && !o.anydiff) || d == 0, "no counted difference => distance 0")
+	verifAssert(!(comparable && !o.anydiff) || vfClose(d, 0), "no counted difference => distance 0")
 	verifAssert(!defined || vfClose(d, ref), "distance equals the published closed form")
 	verifAssert(!defined || vfFinite(d), "defined estimator is finite")
 	// d >= p is a consequence of ln x <= x-1 resp. Bernoulli's inequality (axioms of the
@@ -263,11 +263,11 @@ func H_C07_est_f81() {
 }
 
 // H_C07_est_f81_deep: as H_C07_est_f81 at more sample points.
-// bounds: frequencies (1/10,2/10,3/10,4/10), (1/16,1/16,1/8,3/4), (3/8,1/8,3/8,1/8); alpha in {7/3, 1/4, 5}; weights k/2 (k=1..40)
+// bounds: frequencies (1/10,2/10,3/10,4/10), (1/16,1/16,1/8,3/4), (3/8,1/8,3/8,1/8); alpha in {7/3, 1/4, 5}; weights k/2 summing to 20
 // outside: IEEE rounding is outside the claim: floats are exact reals
 //verif: tier=thorough
 func H_C07_est_f81_deep() {
-	vfEstF81(vfFreqPtsThorough, vfAlphasThorough, vfPair(1, 40))
+	vfEstF81(vfFreqPtsThorough, vfAlphasThorough, vfPairNorm(20))
 }
 
 // ------------------------------------------------------------------------------------------- F84
